@@ -578,6 +578,7 @@ func c09RunConfig(c *Ctx, l *lib.Lean, rng *rand.Rand, k c09Cfg, nmut int, wants
 		}
 	}
 	c09LockedStore(c, rig, dbFile, k, toks)
+	c09Rotation(c, k, dbFile, admin)
 	return nil
 }
 
